@@ -62,6 +62,7 @@ def expect_family(name, mk, settings, expect, dedup_too=False):
                 res["validate"] = dict(case, expect=exp)
         return res
     f = Family(name, mk, run, target_prefixes=1, on_panic=on_panic_factory(settings))
+    f.partition = name.startswith(("idfault", "missing"))        # symbolic fault values: the explored paths must cover every value
     return f
 
 def visible(reg):
